@@ -469,6 +469,11 @@ def check_S6(prog, rep, eff):
 
 
 def check(prog, rep):
+    from ..sharedrules import check_value_truthiness
+    for nm_, f_ in sorted(prog.public_api().items()):
+        if hasattr(f_, 'params') and f_.params and not f_.is_lambda:
+            check_value_truthiness(prog, rep, 'S8-truth', f_)
+    rep.floor('S8-truth', 30)
     eff = Effects(prog)
     nf = check_S1(prog, rep, eff)
     check_S2(prog, rep, eff)
